@@ -526,3 +526,29 @@ def machine_cfg(run: AsyncRun, counts, user_steps, gs0=None, fuel=200000, polici
                           init_data=int(onp.asarray(gs0.inputs[c["dst"]][c["src"]].data.y)[0]), phase_node=fb(conn.input_node.phase), phase_in=fb(conn.output_node.phase),
                           rate_node=fb(conn.input_node.rate), rate_in=fb(conn.output_node.rate)))
     return dict(cmd="async.run", nodes=nodes, conns=conns, sup=idx[spec["supervisor"]], user_steps=int(user_steps), fuel=fuel, policies=list(policies))
+
+
+def probe_recompute(rec, w):
+    """Recompute every recorded step of a probe node from what the record says the step used (state before, input
+    windows, rng, seq) -> (next_state, output) per row. rec: node record dict (with rng/state/inputs)."""
+    import jax
+    import jax.numpy as jnp
+    import numpy as onp
+
+    n = len(rec["state"])
+    if n == 0:
+        return [], []
+    keys = jnp.asarray(onp.array(rec["rng"][:n], dtype=onp.uint32))
+    draws = onp.asarray(jax.vmap(lambda k: jax.random.randint(jax.random.split(k)[1], (), 0, 1000, dtype=jnp.int32))(keys)).astype(int)
+    ns, ys = [], []
+    for i in range(n):
+        acc = 0
+        for idx, name in enumerate(sorted(rec.get("inputs", {}).keys())):
+            win = rec["inputs"][name]
+            for j, (d, q) in enumerate(zip(win["data"][i], win["seq"][i])):
+                wt = (j + 1) * (idx + 1)
+                acc += wt * (d % 1009) + 13 * wt * max(q, -1)
+        s = (31 * rec["state"][i] + w * (acc % M) + int(draws[i]) + rec["seq"][i]) % M
+        ns.append(s)
+        ys.append((7 * s + rec["seq"][i]) % M)
+    return ns, ys
